@@ -10,7 +10,11 @@ import collections
 from core.prog import strip, walk, ap, key, short, const_int, is_null_const, root_var
 from core.psts import Env, solve, relevance, apply_generic, Budget
 
-SEED = {'coap_malloc_type', 'coap_realloc_type', 'malloc', 'calloc', 'realloc', 'strdup', 'strndup'}
+SEED = {'coap_malloc_type', 'coap_realloc_type', 'malloc', 'calloc', 'realloc', 'strdup', 'strndup',
+        'gnutls_malloc', 'gnutls_realloc', 'gnutls_calloc', 'gnutls_strdup'}
+# GnuTLS exports its allocators as function-pointer variables: `gnutls_malloc(n)` is an indirect call through the global of that name
+INDIRECT_ALLOC = {'var:gnutls_malloc': 'gnutls_malloc', 'var:gnutls_realloc': 'gnutls_realloc', 'var:gnutls_calloc': 'gnutls_calloc',
+                  'var:gnutls_strdup': 'gnutls_strdup'}
 # libc routines that dereference the listed arguments
 MEMFN = {'memcpy': (0, 1), 'memset': (0,), 'memmove': (0, 1), 'strcpy': (0, 1), 'strcat': (0, 1), 'strlen': (0,),
          'memcmp': (0, 1), 'strncpy': (0, 1), 'strcmp': (0, 1), 'strncmp': (0, 1), 'snprintf': (0,), 'sprintf': (0,),
@@ -20,6 +24,13 @@ MEMFN = {'memcpy': (0, 1), 'memset': (0,), 'memmove': (0, 1), 'strcpy': (0, 1), 
 def _call_of(x):
     x = strip(x)
     if isinstance(x, dict) and x.get('k') == 'call':
+        if x.get('fn') is None:
+            from core.prog import callee_field
+            cf = callee_field(x)
+            if cf in INDIRECT_ALLOC:
+                y = dict(x)
+                y['fn'] = INDIRECT_ALLOC[cf]
+                return y
         return x
     return None
 
@@ -38,6 +49,9 @@ class AllocNull:
         """library functions that transitively call a seed allocator"""
         cg = self.P.callgraph()
         al = set(n for n in self.F if cg.get(n, set()) & SEED)
+        for n, f in self.F.items():
+            if n not in al and any(_call_of(t) is not None and _call_of(t).get('fn') in SEED for b, ev in self.P.events(f) for t in walk(ev['e']) if isinstance(t, dict) and t.get('k') == 'call'):
+                al.add(n)
         changed = True
         while changed:
             changed = False
